@@ -8,6 +8,6 @@ tmp=$(mktemp -d)
 for p in $props; do ( ./check $p --tier $TIER > $tmp/$p.out 2>&1; echo $? > $tmp/$p.rc ) & done
 wait
 bad=0
-for p in $props; do rc=$(cat $tmp/$p.rc); last=$(tail -1 $tmp/$p.out); echo "$p rc=$rc $last"; [ "$rc" = "0" ] || { bad=1; grep -E "^  C|INTERNAL|Error" $tmp/$p.out | head -5; }; done
+for p in $props; do rc=$(cat $tmp/$p.rc); last=$(tail -1 $tmp/$p.out); echo "$p rc=$rc $last"; [ "$rc" = "0" ] || { bad=1; grep -E "^  C|INTERNAL|Error" $tmp/$p.out | head -5; }; grep "SELFTEST-FAILED" $tmp/$p.out && bad=1; done
 rm -rf $tmp
 exit $bad
